@@ -163,6 +163,146 @@ func (p *Program) Canon(fn *Func, x ast.Expr) string {
 	return p.canon(fn, x, 0)
 }
 
+// pathCtx makes canon path-aware: locals assigned more than once resolve to their most recent
+// definition on the path (or to the map slot they were stored into), and calls of inlined helpers
+// resolve to what the helper returned on this path.
+type pathCtx struct {
+	path *Path
+	use  map[ast.Node]int
+}
+
+func (p *Program) SetPath(path *Path) {
+	if path == nil {
+		p.cur = nil
+		return
+	}
+	if p.cur != nil && p.cur.path == path {
+		return
+	}
+	p.cur = &pathCtx{path: path, use: map[ast.Node]int{}}
+}
+
+// useIndex: index of the first event of fn on the current path whose node contains n.
+func (p *Program) useIndex(fn *Func, n ast.Node) int {
+	c := p.cur
+	if i, ok := c.use[n]; ok {
+		return i
+	}
+	idx := len(c.path.Events)
+	for i, ev := range c.path.Events {
+		if ev.Fn != fn || ev.Node == nil {
+			continue
+		}
+		if ev.Node.Pos() <= n.Pos() && n.End() <= ev.Node.End() {
+			idx = i
+			break
+		}
+	}
+	c.use[n] = idx
+	return idx
+}
+
+// pathDef resolves a local that is assigned more than once: the most recent definition, or the
+// container slot it was last stored into, before its use on the current path.
+func (p *Program) pathDef(fn *Func, id *ast.Ident, obj types.Object, depth int) (string, bool) {
+	if p.cur == nil {
+		return "", false
+	}
+	info := fn.Info()
+	u := p.useIndex(fn, id)
+	evs := p.cur.path.Events
+	if u > len(evs) {
+		u = len(evs)
+	}
+	isObj := func(x ast.Expr) bool {
+		i, ok := ast.Unparen(x).(*ast.Ident)
+		return ok && (info.Uses[i] == obj || info.Defs[i] == obj)
+	}
+	for j := u - 1; j >= 0; j-- {
+		ev := evs[j]
+		if ev.Fn != fn || ev.Kind != EvAssign {
+			continue
+		}
+		if ev.Tok != token.ASSIGN && ev.Tok != token.DEFINE {
+			continue
+		}
+		for k, l := range ev.Lhs {
+			if isObj(l) {
+				if len(ev.Rhs) == len(ev.Lhs) {
+					return p.canon(fn, ev.Rhs[k], depth+1), true
+				}
+				if len(ev.Rhs) == 1 {
+					if res, rfn, ok := p.inlinedResults(fn, ev.Rhs[0]); ok && k < len(res) {
+						return p.canon(rfn, res[k], depth+1), true
+					}
+					s := p.canon(fn, ev.Rhs[0], depth+1)
+					if _, isIdx := ast.Unparen(ev.Rhs[0]).(*ast.IndexExpr); isIdx && k == 0 {
+						return s, true
+					}
+					return fmt.Sprintf("%s#%d", s, k), true
+				}
+				return "", false
+			}
+		}
+		if len(ev.Rhs) == len(ev.Lhs) {
+			for k, rh := range ev.Rhs {
+				if isObj(rh) {
+					if _, isIdx := ast.Unparen(ev.Lhs[k]).(*ast.IndexExpr); isIdx {
+						switch obj.Type().Underlying().(type) {
+						case *types.Map, *types.Slice, *types.Pointer:
+							return p.canon(fn, ev.Lhs[k], depth+1), true // stored into a slot: denotes that slot from now on
+						}
+					}
+				}
+			}
+		}
+	}
+	return "", false
+}
+
+// inlinedResults: the call was looked into on the current path; returns the result expressions of
+// the return statement the helper took, and the helper instance they belong to.
+func (p *Program) inlinedResults(fn *Func, x ast.Expr) ([]ast.Expr, *Func, bool) {
+	if p.cur == nil {
+		return nil, nil, false
+	}
+	call, ok := ast.Unparen(x).(*ast.CallExpr)
+	if !ok {
+		return nil, nil, false
+	}
+	evs := p.cur.path.Events
+	for j, ev := range evs {
+		if ev.Kind != EvCall || ev.Call != call || ev.Fn != fn {
+			continue
+		}
+		if j+1 >= len(evs) || evs[j+1].Kind != EvEnter || !evs[j+1].Helper || evs[j+1].ViaCall != call {
+			return nil, nil, false
+		}
+		depth := 0
+		var last *Event
+		for k := j + 1; k < len(evs); k++ {
+			e := &evs[k]
+			if e.Kind == EvEnter {
+				depth++
+			}
+			if e.Kind == EvExit {
+				depth--
+				if depth == 0 {
+					break
+				}
+			}
+			if e.Kind == EvReturn && e.Depth == evs[j+1].Depth+1 && depth == 1 {
+				last = e
+			}
+		}
+		if last == nil {
+			return nil, nil, false
+		}
+		return last.Results, last.Fn, true
+	}
+	return nil, nil, false
+}
+
 func (p *Program) canon(fn *Func, x ast.Expr, depth int) string {
 	if x == nil {
 		return ""
@@ -192,12 +332,29 @@ func (p *Program) canon(fn *Func, x ast.Expr, depth int) string {
 				return "global:" + shortPkg(o.Pkg().Path()) + "." + o.Name()
 			}
 			if r := fn.root(); r.Recv != nil && o == r.Recv {
+				if r.bind != nil && r.bind.recv != nil {
+					return p.canon(r.bind.caller, r.bind.recv, depth+1)
+				}
 				return "recv"
 			}
 			if isParamOf(fn, o) {
+				// parameter of a bound helper instance: the caller's argument
+				for f := fn; f != nil; f = f.Outer {
+					if i := paramIndex(f, o); i >= 0 {
+						if f.bind != nil && f.bind.call != nil && i < len(f.bind.call.Args) {
+							return p.canon(f.bind.caller, f.bind.call.Args[i], depth+1)
+						}
+						break
+					}
+				}
 				return "param:" + paramOwner(fn, o) // positional: "#i", or "lit@pos.#i" for a literal's own parameter
 			}
 			if ds, ok := fn.Defs().singleDef(o); ok {
+				if ds.kind == "assign" && ds.multi && ds.rhs != nil {
+					if res, rfn, ok := p.inlinedResults(fn, ds.rhs); ok && ds.idx < len(res) {
+						return p.canon(rfn, res[ds.idx], depth+1)
+					}
+				}
 				switch ds.kind {
 				case "zero":
 					if fn.isDecodeTarget(o) {
@@ -218,6 +375,9 @@ func (p *Program) canon(fn *Func, x ast.Expr, depth int) string {
 				case "range-val":
 					return "rangeval(" + p.canon(fn, ds.rhs, depth+1) + ")"
 				}
+			}
+			if s, ok := p.pathDef(fn, v, o, depth); ok {
+				return s
 			}
 			return "local:" + o.Name()
 		case *types.Func:
@@ -284,6 +444,9 @@ func (p *Program) canon(fn *Func, x ast.Expr, depth int) string {
 	case *ast.CallExpr:
 		if tv, ok := info.Types[v.Fun]; ok && tv.IsType() && len(v.Args) == 1 {
 			return "conv:" + typeShort(tv.Type) + "(" + p.canon(fn, v.Args[0], depth+1) + ")"
+		}
+		if res, rfn, ok := p.inlinedResults(fn, v); ok && len(res) == 1 {
+			return p.canon(rfn, res[0], depth+1)
 		}
 		callee := calleeObj(info, v)
 		if f, ok := callee.(*types.Func); ok {
